@@ -42,7 +42,7 @@ def defines_origins(ctx, run, rule):
             continue
         if o.kind == "display" and isinstance(o.node, ast.Dict) \
                 and not o.node.keys and o.fi is not None \
-                and o.fi.qualname == init.qualname:
+                and m.owner(o.fi).qualname == init.qualname:
             in_default = any(o.node is d or any(o.node is x for x in
                                                 ast.walk(d))
                              for d in init.node.args.defaults
@@ -121,7 +121,7 @@ def run(ctx):
                     continue
                 for t in n_.targets:
                     if isinstance(t, ast.Attribute) and not (
-                            fi.qualname == PC + ".__init__"
+                            m.owner(fi).qualname == PC + ".__init__"
                             and t.attr == "defines"):
                         bad.append((fi, n_))
                     elif isinstance(t, ast.Subscript):
